@@ -3,16 +3,18 @@
 (* stretch of a harness run whose objects are all created inside it; the     *)
 (* ledger behind Memory::Allocate / Deallocate (the library's own accounting *)
 (* seam) records every block: ev = the sequence of +instance / -instance / 0 *)
-(* in the order they happened, base = the instances live when it began, z = 1 *)
-(* if every owner created in the scope is gone at its end.  The event is accepted iff folding QMem's transition     *)
-(* over ev (from base) never errs and, when z = 1, exactly base is live      *)
+(* in the order they happened, z = 1 if every owner created in the scope is    *)
+(* gone at its end.  A long scope is cut into segments: base = the instances *)
+(* live when the segment began, base0 = when the scope began.  The event is accepted iff folding QMem's transition     *)
+(* over ev (from base) never errs and, when z = 1, exactly base0 is live     *)
 (* again.                                                                    *)
-EXTENDS QMem, Json, IOUtils
+EXTENDS QMemDefs, Json, IOUtils
 Tr == ndJsonDeserialize(IOEnv.TRACE)
 VARIABLE l
 EventOK(e) == LET base == {e.base[i] : i \in 1..Len(e.base)}
+                  base0 == {e.base0[i] : i \in 1..Len(e.base0)}
                   r == Fold([live |-> base, err |-> ""], e.ev, 1) IN
-              r.err = "" /\ (e.z = 0 \/ r.live = base)
+              r.err = "" /\ (e.z = 0 \/ r.live = base0)
 OInit == l = 0
 ONext == \/ /\ l = 0 /\ l' \in {0 - b : b \in 1..64}
          \/ /\ l < 0 /\ l' \in {i \in 1..Len(Tr) : i % 64 = (0 - l) % 64}
